@@ -290,6 +290,22 @@ func init() {
 		"verifStrEq": func(w *Worker, _ *frame, _ *ssa.Function, a []Value) Value {
 			return w.strEq(a[0].(*StrV), a[1].(*StrV))
 		},
+		"verifGuardedBy": func(w *Worker, _ *frame, _ *ssa.Function, a []Value) Value {
+			// verifGuardedBy(ptrToData any, ptrToMutex any): every later access to the data object
+			// must happen while the mutex is held (lock-set monitor)
+			d, ok1 := a[0].(IfaceV)
+			m, ok2 := a[1].(IfaceV)
+			if !ok1 || !ok2 {
+				panic(pathAbort{"unsupported", "verifGuardedBy arguments"})
+			}
+			dp, ok1 := d.V.(PtrV)
+			mp, ok2 := m.V.(PtrV)
+			if !ok1 || !ok2 || dp.O == nil || mp.O == nil {
+				panic(pathAbort{"unsupported", "verifGuardedBy needs non-nil pointers"})
+			}
+			markGuard(dp.O, lockKey(mp.O))
+			return nil
+		},
 		"verifLockHeld": func(w *Worker, _ *frame, _ *ssa.Function, a []Value) Value {
 			p := a[0].(PtrV)
 			if p.O == nil {
@@ -326,10 +342,26 @@ func (w *Worker) hashStub(name string, n int, in []*term.Term) []*term.Term {
 		}
 	}
 	out := make([]*term.Term, n)
-	if w.P.Concrete {
-		// concrete mode: a simple deterministic mixing function (injectivity is
-		// not guaranteed, determinism is)
+	allConst := true
+	for _, b := range in {
+		if !b.IsConst() {
+			allConst = false
+			break
+		}
+	}
+	if w.P.Concrete || allConst {
+		// concrete inputs: a deterministic mixing function stands in for the hash
+		// (128-bit state; an accidental collision is as unlikely as for a real one).
+		// Symbolic applications are still related to these by the constraints below.
 		var acc uint64 = 1469598103934665603
+		for _, c := range []byte(name) {
+			acc = (acc ^ uint64(c)) * 1099511628211
+		}
+		acc2 := uint64(len(in))*0x9E3779B97F4A7C15 + 7
+		for _, b := range in {
+			acc2 = (acc2 + b.Val + (acc2 << 6) + (acc2 >> 2)) * 0xff51afd7ed558ccd
+		}
+		acc ^= acc2
 		for _, b := range in {
 			acc = (acc ^ b.Val) * 1099511628211
 		}
@@ -418,9 +450,21 @@ func (w *Worker) noteAccess(o *Obj, write bool) {
 	if write {
 		kind = "write"
 	}
-	msg := fmt.Sprintf("%s of %s without %s", kind, o.Typ, o.Guard)
+	msg := fmt.Sprintf("lock discipline: %s of a guarded %s while its mutex is not held [in %s]", kind, o.Typ, w.targetStack())
 	if len(w.res.LockViol) < 16 {
 		w.res.LockViol = append(w.res.LockViol, msg)
+	}
+	w.site("$lockset", "lock-set monitor", "").Violated++
+	w.reportViolation("lockset", msg, "", w.TF.True, "")
+	panic(pathAbort{"violation", msg})
+}
+
+func markGuard(o *Obj, g string) {
+	o.Guard = g
+	for _, k := range o.Kids {
+		if k != nil {
+			markGuard(k, g)
+		}
 	}
 }
 
